@@ -73,7 +73,9 @@ def is_quantum_channel(
     # If the variable `phi` is provided as a list, we assume this is a list
     # of Kraus operators.
     if isinstance(phi, list):
-        phi = kraus_to_choi(phi)
+        # Decide trace preservation on the Kraus operators themselves: the Choi matrix alone does not
+        # determine the input and output dimensions when they differ.
+        return is_completely_positive(kraus_to_choi(phi), rtol, atol) and is_trace_preserving(phi, rtol, atol)
 
     # A valid quantum channel is a superoperator that is both completely
     # positive and trace-preserving.
